@@ -344,7 +344,10 @@ class Fn:
             key = nm if (plain or nm in self.inline) else text
             if nm not in self.inline:
                 self.stage_calls[key] = {"callee": nm, "text": text, "indirect": False}
-            return {"k": "call", "f": nm, "key": key, "args": [self.term(a) for a in args] if nm in self.inline else []}
+            # only scalar arguments matter to the skeleton (pointer parameters never occur in parameter guards)
+            sargs = [self.term(a) for a in args if "*" not in a.get("type", {}).get("qualType", "") and
+                     "[" not in a.get("type", {}).get("qualType", "")] if nm in self.inline else []
+            return {"k": "call", "f": nm, "key": key, "args": sargs}
         # utility that does not receive the mjData: footprint from the prototype
         proto = rd.get("type", {}).get("qualType", "")
         m = re.match(r"^(.*?)\((.*)\)$", proto)
@@ -633,7 +636,7 @@ def main():
             p = flatten(fn.body)
             text = "def %s : Prog :=\n  %s\n" % (name, to_lean(p))
             out.append(text)
-            names.append((name, fn.params))
+            names.append((name, [q for q in fn.params if "*" not in fn.ptypes[q] and "[" not in fn.ptypes[q]]))
             man[name] = {"file": file, "sha256": c2lean.func_sha(funcs[name], file), "params": fn.params, "prog": p,
                          "stage_calls": fn.stage_calls}
             for k, v in fn.stage_calls.items():
